@@ -3,7 +3,7 @@
 // vertices_begin() and backward stepping agree.
 // State: base mesh (v_param 0) in deferred-deletion mode + 0..2 deletions of entities of kind v_param(1)
 // (their upward closure is deleted with them, so every array gets front / middle / end / all-deleted patterns);
-// the deleted pair is chosen by a symbolic selector (8 cases per query, chunk = v_param 2).
+// the deleted pair is chosen by a symbolic selector (case index = v_param(2) + selector, v_param 5 cases per query (0: 8); v_param 3: 0 all pairs, 1 single deletions only, 2 singles + (0,1),(n-2,n-1),(0,n-1)).
 // Symbolic per iterator type: the start handle s in [0, n] handed to the iterator constructor.
 #include "c05_common.h"
 
@@ -49,22 +49,18 @@ static void check_iter(const TopologyKernel &m, const bool *del, int n) {
   v_assert(b.valid() == (nl > 0), "C05 iter: begin is valid iff a live entity exists");
   if (nl > 0) v_assert((*b).idx() == live[0], "C05 iter: begin skips leading deleted entities");
   else v_assert(b == e, "C05 iter: begin == end when nothing is live");
-  // ---- forward, valid() protocol; at every position: ++ then -- comes back
+  // ---- forward: valid() protocol and (begin,end) protocol in one walk; at every position ++/-- and --/++ come back
   {
     int j = 0;
-    for (It it = Tr::iter(m); it.valid() && j <= MAXIT; ++it, ++j) {
+    It it = Tr::iter(m);
+    for (; it.valid() && j <= MAXIT; ++it, ++j) {
       v_assert(j < nl && (*it).idx() == live[j < nl ? j : 0], "C05 iter: valid()-loop visits the live entities in ascending order");
+      v_assert(it != e, "C05 iter: a valid iterator differs from end");
       if (j + 1 < nl) { It c = it; ++c; --c; v_assert(c == it, "C05 iter: -- after ++ restores the position"); }
       if (j > 0) { It c = it; --c; ++c; v_assert(c == it, "C05 iter: ++ after -- restores the position"); }
     }
     v_assert(j == nl, "C05 iter: valid()-loop visits every live entity exactly once");
-  }
-  // ---- forward, begin/end pair
-  {
-    int j = 0;
-    for (It it = b; it != e && j <= MAXIT; ++it, ++j)
-      v_assert(j < nl && (*it).idx() == live[j < nl ? j : 0] && it.valid(), "C05 iter: (begin,end)-loop visits the live entities in ascending order");
-    v_assert(j == nl, "C05 iter: (begin,end)-loop visits every live entity exactly once");
+    v_assert(it == e, "C05 iter: the exhausted iterator equals end");
   }
   // ---- range-for
   {
@@ -80,12 +76,13 @@ static void check_iter(const TopologyKernel &m, const bool *del, int n) {
     v_assert(j == -1, "C05 iter: backward stepping visits every live entity exactly once");
   }
   // ---- symbolic start handle
+#ifndef C05_NO_SYM
   {
     int s = (int)v_nondet_below((unsigned)n + 1);
     int cur = n, nxt = n, prv = -1;   // first live >= s; first live > cur; last live < cur
-    for (int i = MAXIT - 1; i >= 0; --i) if (i < n && i >= s && !del[i]) cur = i;
-    for (int i = MAXIT - 1; i >= 0; --i) if (i < n && i > cur && !del[i]) nxt = i;
-    for (int i = 0; i < MAXIT; ++i) if (i < n && i < cur && !del[i]) prv = i;
+    for (int i = n - 1; i >= 0; --i) if (i >= s && !del[i]) cur = i;      // n is concrete per case: constant trip counts
+    for (int i = n - 1; i >= 0; --i) if (i > cur && !del[i]) nxt = i;
+    for (int i = 0; i < n; ++i) if (i < cur && !del[i]) prv = i;
     It it(&m, H(s));
     v_assert(it.valid() == (cur < n), "C05 iter: iterator(start) is valid iff a live entity >= start exists");
     if (cur < n) {
@@ -104,31 +101,47 @@ static void check_iter(const TopologyKernel &m, const bool *del, int n) {
       }
     } else v_assert(it == e, "C05 iter: iterator(start) with nothing live behind start equals end");
   }
+#endif
 }
 
+static bool g_vdel[MAXIT], g_edel[MAXIT], g_hedel[MAXIT], g_fdel[MAXIT], g_hfdel[MAXIT], g_cdel[MAXIT];
+
 static __attribute__((noinline)) void iter_case(unsigned i) {
-  unsigned base = v_param(0), kind = v_param(1), chunk = v_param(2);
+  unsigned base = v_param(0), kind = v_param(1), start = v_param(2), per = v_param(5);
+  if (per == 0 || per > C05_PER) per = C05_PER;
+  if (i >= per) return;
+  unsigned idx = start + i;
+  unsigned a = 0, b = 0, n = c05_base_count(base, kind);
+  if (kind == K_NONE) { if (idx != 0) return; }
+  else if (v_param(3) == 1) { if (idx >= n) return; a = b = idx; }   // singles only
+  else if (v_param(3) == 2) {                                         // singles + front two, end two, front and end
+    if (idx < n) a = b = idx;
+    else if (n >= 2 && idx == n) { a = 0; b = 1; }
+    else if (n >= 2 && idx == n + 1) { a = n - 2; b = n - 1; }
+    else if (n >= 2 && idx == n + 2) { a = 0; b = n - 1; }
+    else return;
+  }
+  else if (!c05_pair(n, idx, a, b)) return;
   TopologyKernel m;
   c05_build(m, base);
-  unsigned idx = chunk * C05_PER + i;
-  if (kind == K_NONE) { if (idx != 0) return; }
-  else {
-    unsigned a, b;
-    if (!c05_pair(c05_count(m, kind), idx, a, b)) return;
+  v_assert(c05_counts_ok(m, base), "C05 harness: base count table");
+  if (kind != K_NONE) {
     c05_delete(m, kind, a);
     if (b != a) c05_delete(m, kind, b);
   }
-  Snap s; take_snapshot(m, s);
-  if (s.overflow) { v_assert(false, "C05 harness capacity (snapshot)"); return; }
-  bool hdel[2 * MAXE], hfdel[2 * MAXF];
-  for (int h = 0; h < 2 * s.nE; ++h) hdel[h] = s.edel[h >> 1];
-  for (int h = 0; h < 2 * s.nF; ++h) hfdel[h] = s.fdel[h >> 1];
-  check_iter<VTr>(m, s.vdel, s.nV);
-  check_iter<ETr>(m, s.edel, s.nE);
-  check_iter<HETr>(m, hdel, 2 * s.nE);
-  check_iter<FTr>(m, s.fdel, s.nF);
-  check_iter<HFTr>(m, hfdel, 2 * s.nF);
-  check_iter<CTr>(m, s.cdel, s.nC);
+  // stored deleted flags (the reference side): plain global arrays, cheap for the symbolic executor
+  const int nV = (int)m.n_vertices(), nE = (int)m.n_edges(), nF = (int)m.n_faces(), nC = (int)m.n_cells();
+  if (nV > MAXIT || 2 * nE > MAXIT || 2 * nF > MAXIT || nC > MAXIT) { v_assert(false, "C05 harness capacity"); return; }
+  for (int i = 0; i < nV; ++i) g_vdel[i] = m.is_deleted(VH(i));
+  for (int i = 0; i < nE; ++i) { g_edel[i] = m.is_deleted(EH(i)); g_hedel[2 * i] = g_hedel[2 * i + 1] = g_edel[i]; }
+  for (int i = 0; i < nF; ++i) { g_fdel[i] = m.is_deleted(FH(i)); g_hfdel[2 * i] = g_hfdel[2 * i + 1] = g_fdel[i]; }
+  for (int i = 0; i < nC; ++i) g_cdel[i] = m.is_deleted(CH(i));
+  check_iter<VTr>(m, g_vdel, nV);
+  check_iter<ETr>(m, g_edel, nE);
+  check_iter<HETr>(m, g_hedel, 2 * nE);
+  check_iter<FTr>(m, g_fdel, nF);
+  check_iter<HFTr>(m, g_hfdel, 2 * nF);
+  check_iter<CTr>(m, g_cdel, nC);
   v_witness("C05 iter case end");
 }
 template <unsigned I> struct IterCase { static __attribute__((noinline)) void run() { iter_case(I); } };
